@@ -964,9 +964,6 @@ class FortranFile:
             text_split = [""]
         else:
             text_split = splitlines(text)
-            # Check for ending newline
-            if (text[-1] == "\n") or (text[-1] == "\r"):
-                text_split.append("")
 
         if change_range is None:
             # The whole file has changed
